@@ -47,7 +47,16 @@ func c17Gen(tier string, seed int64) []core.Case {
 		}
 		for _, law := range []string{"scalarmult", "grouplaws"} {
 			id := fmt.Sprintf("arith/%s/%s", curve, law)
-			cs = append(cs, core.Case{ID: id, Class: id, Kind: law, Cost: 5, P: core.P{"curve": curve, "n": tierN(tier, 40, 400)}})
+			// the edwards arithmetic of the library and of the reference is big.Int based (about 10 ms per multiplication):
+			// the thorough tier is sized by CPU cost, and the allowance follows it
+			n, cost := tierN(tier, 40, 400), 5.0
+			if isEd(curve) {
+				n = tierN(tier, 40, 120)
+			}
+			if tier == "thorough" {
+				cost = 40
+			}
+			cs = append(cs, core.Case{ID: id, Class: id, Kind: law, Cost: cost, P: core.P{"curve": curve, "n": n}})
 		}
 	}
 	cs = append(cs, core.Case{ID: "torsion/ed25519", Class: "torsion/ed25519", Kind: "torsion", Cost: 3, P: core.P{"n": tierN(tier, 20, 200)}})
